@@ -43,10 +43,18 @@ func checksum(b []byte) uint16 {
 	csumcv := len(b) - 1 // checksum coverage
 	s := uint32(0)
 	for i := 0; i < csumcv; i += 2 {
-		s += uint32(b[i+1])<<8 | uint32(b[i])
+		w := uint32(b[i+1])<<8 | uint32(b[i])
+		s += w
+		if s < w { // end-around carry, 1<<32 is 1 modulo 0xffff
+			s++
+		}
 	}
 	if csumcv&1 == 0 {
-		s += uint32(b[csumcv])
+		w := uint32(b[csumcv])
+		s += w
+		if s < w {
+			s++
+		}
 	}
 	s = s>>16 + s&0xffff
 	s = s + s>>16
